@@ -6,32 +6,6 @@ From GV Require Import Base.Ints Gen.Math Gen.Kernel Model.Mirror Proofs.MirrorA
 Import ListNotations.
 Local Open Scope N_scope.
 
-Definition sig_admissible (keys : list N) (kind h r : N) (t : bytes) (ss : ssig) : bool :=
-  match keyid_decode (ss_kid ss) with
-  | Some n => match nth_n keys n with
-              | Some key => verify_vote key kind h r t (ss_sig ss)
-              | None => false
-              end
-  | None => false
-  end.
-
-Definition entry_all_invalid (keys : list N) (kind h r : N) (e : bytes * list ssig) : bool :=
-  forallb (fun ss => negb (sig_admissible keys kind h r (fst e) ss)) (snd e).
-
-Definition msg_all_invalid (keys : list N) (kind : N) (m : vmsg) : bool :=
-  forallb (entry_all_invalid keys kind (vm_h m) (vm_r m)) (vm_proofs m).
-
-(** the key list a message is verified against in state [s] *)
-Definition keys_for (s : kstate) (m : vmsg) : list N :=
-  match find_view (kpos_of s) (vm_h m) (vm_r m) with
-  | Ok (vid, st) =>
-      if st =? ViewFuture then
-        if vm_h m =? v_h (k_vot s) then vs_keys (v_vals (k_vot s))
-        else match pm_get (st_vals s) (vm_pkh m) with Some k => k | None => [] end
-      else vs_keys (v_vals (get_view s vid))
-  | Panic _ => []
-  end.
-
 Lemma merge_sigs_all_invalid kind h r t keys sigs : forall p,
   forallb (fun ss => negb (sig_admissible keys kind h r t ss)) sigs = true ->
   fst (merge_sigs kind h r t keys p sigs) = p.
@@ -142,6 +116,7 @@ Proof.
     + intros Hall. destruct (vs_keys (v_vals (k_vot s))) as [|k0 ks] eqn:Hk.
       { intros E; inversion E; subst. repeat split; discriminate. }
       rewrite <- Hk in *. clear Hk k0 ks.
+      destruct (negb (bytes_eqb _ _)); [intros E; inversion E; subst; repeat split; discriminate|].
       destruct (match coll_of _ _ with Some c => c | None => _ end) as [spkh stored].
       match goal with |- context [fold_left ?f ?l ?a] =>
         pose proof (future_fold_all_invalid kind (vm_h m) (vm_r m) (vs_keys (v_vals (k_vot s))) spkh (vm_pkh m) (vm_proofs m)
@@ -151,20 +126,7 @@ Proof.
       cbv zeta in Hf.
       destruct (fold_left _ _ _) as [[full' allv] inc]. cbn in Hf. subst inc.
       destruct (negb allv); intros E; inversion E; subst; repeat split; discriminate.
-    + destruct (pm_get (st_vals s) (vm_pkh m)) as [keys|].
-      2:{ intros _ E; inversion E; subst. repeat split; discriminate. }
-      intros Hall. destruct keys as [|k0 ks] eqn:Hk.
-      { intros E; inversion E; subst. repeat split; discriminate. }
-      rewrite <- Hk in *. clear Hk k0 ks.
-      destruct (match coll_of _ _ with Some c => c | None => _ end) as [spkh stored].
-      match goal with |- context [fold_left ?f ?l ?a] =>
-        pose proof (future_fold_all_invalid kind (vm_h m) (vm_r m) keys spkh (vm_pkh m) (vm_proofs m)
-                      (map (fun x => (fst x, fst (fst (merge_sparse kind (vm_h m) (vm_r m) (fst x) keys [] (snd x))))) stored)
-                      true Hall) as Hf
-      end.
-      cbv zeta in Hf.
-      destruct (fold_left _ _ _) as [[full' allv] inc]. cbn in Hf. subst inc.
-      destruct (negb allv); intros E; inversion E; subst; repeat split; discriminate.
+    + intros _ E; inversion E; subst. repeat split; discriminate.
   - intros Hall.
     destruct (st =? ViewFound) eqn:Hst; cbn [negb]; [|intros E; inversion E; subst; repeat split; discriminate].
     apply N.eqb_eq in Hst.
